@@ -147,7 +147,8 @@ class LabelProbabilityInjector(Injector):
                 f"Argument {class_probabilities} has classes not found in data {all_classes}"
             )
 
-        # undefined classes are resampled uniformly
+        # undefined classes are resampled uniformly (in a copy: the caller's dict is left alone)
+        class_probabilities = dict(class_probabilities)
         missing_probability = 1 - sum(class_probabilities.values())
         for uc in undefined_classes:
             class_probabilities[uc] = missing_probability / len(undefined_classes)
